@@ -9,9 +9,9 @@ import os
 from common import Coverage, Driver, coq_eval, rng, violation
 
 VKINDS = ["ok", "wrongid", "badtag", "badsig", "auth", "invalid", "garbage", "peerclose", "peerreset", "http4xx",
-          "okfin", "okrst"]
-OKLIKE = ("ok", "okfin", "okrst")
-OKLOSS = ("okfin", "okrst")   # pair-verify ok, then the accessory drops the link delta ticks into connection_made(True)
+          "okfin", "okrst", "okbad"]
+OKLIKE = ("ok", "okfin", "okrst", "okbad")
+OKLOSS = ("okfin", "okrst", "okbad")   # okbad: the re-subscribe request gets an unusable reply, the controller hangs up   # pair-verify ok, then the accessory drops the link delta ticks into connection_made(True)
 TEN_S = 40960
 SIXTY_S = 245760
 THIRTY_S = 122880          # request timeout of InsecureHomeKitProtocol._send_lines
@@ -77,13 +77,13 @@ def coq_scenario(sc):
                             for d in sc.get("dials", [])) + "]"
     vk = dict(ok="VOk", wrongid="VWrongId", badtag="VBadTag", badsig="VBadSig", auth="VAuth", invalid="VInvalid",
               garbage="VGarbage", peerclose="VPeerClose", peerreset="VPeerReset", http4xx="VHttp4xx", okfin="VOkFin",
-              okrst="VOkRst")
+              okrst="VOkRst", okbad="VOkBad")
     ver = "[" + "; ".join(f"({vk[v[0]]}, {v[1] if len(v) > 1 else 0}%N, {v[3] if len(v) > 3 else 0}%N)"
                           for v in sc.get("verifies", [])) + "]"
     cs = []
     for t, k, a in expand_controls(sc):
         term = dict(ensure=f"Ensure {a}", cancel=f"Cancel {a}", soon="Soon", drop=f"Drop {a}", dropreset=f"DropReset {a}",
-                    close="Close", shutdown="Shutdown").get(k) or f"Zeroconf {nat_list(a)}"
+                    close="Close", shutdown="Shutdown", badreply=f"BadReply {a}").get(k) or f"Zeroconf {nat_list(a)}"
         cs.append(f"({t}%N, {term})")
     return (f"(run {nat_list(range(sc['hosts']))} {'true' if sc.get('subs') else 'false'} {dials} {ver} "
             f"[{'; '.join(cs)}] {sc['end']}%N)")
@@ -140,6 +140,7 @@ CONTROL_TEMPLATES = [
     ("zeroconf-updates", lambda: [[1, "ensure", 1], [2001, "zeroconf", [1, 0]], [6001, "zeroconf", [2]], [50001, "ensure", 2]]),
     ("close-reopen-shutdown", lambda: [[1, "ensure", 1], [3001, "close", 0], [4001, "ensure", 2], [9001, "shutdown", 0],
                                        [9501, "ensure", 3], [9601, "zeroconf", [0]], [9701, "drop", 1]]),
+    ("badreply", lambda: [[1, "ensure", 1], [60001, "badreply", 1], [150001, "badreply", 3]]),
     ("late-drop-then-close", lambda: [[1, "ensure", 1], [100001, "drop", 1], [100003, "drop", 2], [100005, "drop", 3],
                                       [100007, "drop", 4], [200001, "close", 0]]),
 ]
@@ -286,7 +287,7 @@ def gen_scripted_loss():
     lost-during-setup path runs with NO control event after the first ensure: every independent oracle rule applies."""
     out = []
     for prefix in ([], ["refused"], ["badsig"]):
-        for seq in itertools.product(OKLOSS, ["okrst", "okfin", "ok", "badsig"], ["ok", "okrst", "refused"]):
+        for seq in itertools.product(OKLOSS, ["okrst", "okfin", "okbad", "ok", "badsig"], ["ok", "okrst", "refused"]):
             for delta in (1, 700, 5000):
                 for vd in (0, 2000):
                     for nh in (1, 2):
@@ -299,6 +300,31 @@ def gen_scripted_loss():
                                 verifs.append([o, delta if o != "badsig" else 0, 0, vd])
                         out.append(dict(hosts=nh, subs=True, dials=dials + [["connect", 0]] * 3, verifies=verifs + [["ok", 300]],
                                         controls=[[1, "ensure", 1]], end=400001, tag="scripted-loss"))
+    return out
+
+
+def gen_badreply():
+    """The controller itself hangs up on an established session after an unusable reply to an API request (control
+    badreply v: non-UTF-8 / malformed JSON body, HTTP 4xx to a TLV POST), in every connector state (only an established
+    session is affected), once or repeatedly, with and without later use of the pairing; nothing else touches the
+    pairing afterwards in half of the scenarios, so `retries continue` is judged on the bare connector."""
+    out = []
+    states = [
+        ("idle", dict(dials=[["connect", 0]] * 6, verifies=[["ok", 0]] * 6, subs=False), 10001),
+        ("idle-subs", dict(dials=[["connect", 0]] * 6, verifies=[["ok", 700]] * 6, subs=True), 10001),
+        ("post", dict(dials=[["connect", 0]] * 6, verifies=[["ok", 5000]] + [["ok", 0]] * 5, subs=True), 1001),
+        ("inflight", dict(dials=[["connect", 0]] * 6, verifies=[["ok", 0, 0, 5000]] + [["ok", 0]] * 5, subs=False), 1001),
+        ("sleeping", dict(dials=[["refused"]] * 2 + [["connect", 0]] * 5, verifies=[["ok", 0]] * 5, subs=False), 1001),
+        ("after-loss", dict(dials=[["connect", 0], ["connect", 1], ["refused"], ["refused"]], verifies=[["ok", 0], ["badsig", 0]],
+                            subs=False), 10001),
+    ]
+    for name, base, t in states:
+        for v in (0, 1, 2, 3):
+            for tail in ([], [[t + 30001, "badreply", (v + 1) % 4]], [[t + 30001, "ensure", 5], [t + 60001, "badreply", v]],
+                         [[t + 3, "drop", 1]], [[t + 30001, "close", 0], [t + 40001, "ensure", 6], [t + 50001, "badreply", v]]):
+                for nh in (1, 2):
+                    out.append(dict(base, hosts=nh, controls=[[1, "ensure", 1], [t, "badreply", v]] + tail, end=t + 400001,
+                                    tag="badreply/" + name))
     return out
 
 
@@ -357,8 +383,10 @@ def gen_random(r, n, max_time=600000):
                 ctr.append([tt, "zeroconf", hs])
             elif x < 0.6 and not shut:
                 ctr.append([tt, "soon", 0])
-            elif x < 0.82:
+            elif x < 0.77:
                 ctr.append([tt, r.choice(["drop", "dropreset"]), r.randrange(1, 6)])
+            elif x < 0.82:
+                ctr.append([tt, "badreply", r.randrange(4)])
             elif x < 0.92:
                 ctr.append([tt, "close", 0])
             else:
@@ -498,7 +526,7 @@ def oracle_c10(sc, tr):
             relisted = any(c[1] == "zeroconf" and c[0] <= b for c in sc.get("controls", []))
             # ... or it is the first attempt of a fresh connector: the session on a connection opened since a had been
             # established (pair-verify ok) when the accessory closed it in an orderly way (FIN) at tick b
-            fresh = any(e[3] == "okfin" and closed_first.get(e[2]) == b for e in verif_evs if a <= e[0] < b)
+            fresh = any(e[3] in ("okfin", "okbad") and closed_first.get(e[2]) == b for e in verif_evs if a <= e[0] < b)
             if not fresh and (not wrong or (any(h in cands_b for h in wrong) and not relisted)):
                 bad.append(("gap-too-short", f"attempts at {a} and {b} only {gap} ticks apart"))
     # ... and a chain of such immediate retries is as bounded as the dials inside one tick
@@ -533,7 +561,7 @@ def oracle_c10(sc, tr):
             for c in opened_at.get(a, []):
                 vd = _vdelay_of(sc, c)
                 k = kind_of.get(c)
-                failing = k is not None and (vd > THIRTY_S or (vd < THIRTY_S and k not in ("ok", "auth", "okfin")))
+                failing = k is not None and (vd > THIRTY_S or (vd < THIRTY_S and k not in ("ok", "auth", "okfin", "okbad")))
                 if not failing or c not in first_closed:
                     over = None                       # session established / connector ended / race / still open
                     break
@@ -645,8 +673,8 @@ def oracle_c11(sc, tr):
             continue
         tc = next((x[0] for x in tr if x[1] == "closed" and x[2] == c), None)
         hi = tc if tc is not None else (endsnap[-1][0] if endsnap else e[0])
-        cause = any(e[0] <= k[0] <= hi and (k[1] in ("close", "shutdown") or (k[1] in ("drop", "dropreset") and k[2] == c))
-                    for k in ctr)
+        cause = any(e[0] <= k[0] <= hi and (k[1] in ("close", "shutdown", "badreply")
+                                            or (k[1] in ("drop", "dropreset") and k[2] == c)) for k in ctr)
         if tc is not None and not cause:
             bad.append(("healthy-session-torn-down", f"connection {c}: pair-verify answered ok (request at tick {e[0]}), "
                         f"closed at tick {tc} although the accessory did not drop it and nobody closed the pairing"))
